@@ -21,7 +21,9 @@ CHECKS = {
              'For every row the real class must report that id, the reactor must dispatch that id to that class, Packet.write must '
              'produce exactly the reference bytes, and reading the reference bytes must give the values with nothing left over. '
              'Serverbound rows are also written through Connection.write_packet on a Connection of that release, with a fresh packet '
-             'object and with one carrying the context of another release: the connection\'s release decides the bytes.',
+             'object and with one carrying the context of another release: the connection\'s release decides the bytes. Relay: '
+             'every clientbound core packet is decoded by the real PacketReactor.read_packet (socket pair) at release A and written '
+             'again under a release B with the same reference fields; the bytes must be B\'s reference frame.',
         note='The table is recollected (no network): any disagreement on the unchanged tree is adjudicated from in-repo evidence or '
              'the row dropped - none was needed. NBT fields use one fixed blob. Trusted: TLC, pynbt for the blob.',
         design='5/C07'),
@@ -38,7 +40,9 @@ CHECKS = {
              'response modes and spawn-object data modes, values generated from the field types - is written, its frame id compared '
              'with the table id, read back into a fresh instance, compared field by field (angles / fixed point within a quantum), '
              'checked for leftover bytes and repr(); TLC judges the recorded law. (c) For definition-driven classes whose types the '
-             'reference encoders cover TLC recomputes the payload from (id, typed field values).',
+             'reference encoders cover TLC recomputes the payload from (id, typed field values). Programs include the '
+             'context-dependent leaf Position, flat and inside nested arrays, encoded under both layouts and replayed under a context '
+             'of the matching era.',
         note='Trusted: TLC, pynbt (opaque), the harness\'s value generators and hand-written builders for the six hand-written codecs. A '
              'change applied consistently to reader and writer of a hand-written codec is C07\'s to catch for core packets.',
         design='5/C05'),
@@ -133,8 +137,9 @@ CHECKS = {
              'scheduled at every lock / queue / socket / thread operation; each send event carries the lock owner, is located in the '
              'byte stream the peer deframed, and the contract rejects a send without the lock, interleaved or split frames, duplicates, '
              'per-thread reordering, a close before the flush, bytes after an immediate disconnect, lost forced writes, and an '
-             'undecodable stream.',
-        note='Trusted: TLC, scheduler and virtual primitives, CPython deque atomicity, the peer\'s deframer. Writes issued after the '
+             'undecodable stream. Writers also race an encrypted login (forced write + cipher swap under the lock), and bursts of '
+             '301-620 queued packets - more than the networking thread\'s 300-packet write batch - precede a non-immediate disconnect.',
+        note='Every client frame of every execution is also judged by the connection-state grammar Trace_Session.tla. Trusted: TLC, scheduler and virtual primitives, CPython deque atomicity, the peer\'s deframer. Writes issued after the '
              'connection has been closed are outside the contract.',
         design='5/C12'),
     'C16': dict(
@@ -149,7 +154,8 @@ CHECKS = {
              'close. TLC checks AtMostOneInIo, RefusalIsClean, InvalidStateIffActive, DisconnectNeverRaises, SlotsClearedWhenDead, '
              'IdleMeansConnectable, SuccessorAfterPredecessor and interrupt ~> terminated. The real Connection runs every single-thread '
              'history <= 4 and thousands of two-thread scenarios with real threads under a token-passing scheduler (virtual lock, '
-             'socket, select, queue, thread start/join); every execution is judged event by event by the contract.',
+             'socket with separate read / write halves, select, queue, thread start/join; servers that accept, refuse, disconnect, close '
+             'or stall in the middle of a frame); every execution is judged event by event by the contract.',
         note='Trusted: TLC, the scheduler and virtual primitives (semantics observed on real sockets), CPython atomicity of attribute '
              'access. API bodies are atomic in the model because the code holds the write lock throughout. An extra invariant '
              '(NoCrossTeardown) fails in the model: observation outside the listed properties, recorded in DESIGN.md.',
@@ -161,7 +167,8 @@ CHECKS = {
                   'Trace_Framing.tla by TLC (I->S)',
         text='Framing.tla with EofArrive enabled at every offset: NoPartialDelivery, BoundedReadsAfterEof, AllCompleteDelivered and the '
              'liveness property eof ~> reader left hold for the present loop and are violated by the loop as it was (self-test '
-             'configuration). For status, status-then-login, login with compression, login with encryption and compressed play '
+             'configuration). For status, status-then-login (default version inside and outside the allowed set), login with '
+             'compression, login with encryption and compressed play '
              'traffic every server stream is cut at every offset (quick: every second offset plus frame boundaries +-2) and the real '
              'client must finish the execution (not exhaust the step budget, not spin on empty reads, not block, not idle for ever), '
              'report an error - or take exactly the documented fallback to the default version when the status query went '
@@ -187,7 +194,7 @@ CHECKS = {
              'WellFramed / PayloadRecovered over boundary sizes x thresholds x deflated sizes (the variant sizing the header by the '
              'deflated length must fail); frames of the real writer are measured without trusting their declared lengths (the end of the '
              'deflate stream is found by inflating) and judged by Trace_FrameWriter.tla.',
-        note='Trusted: TLC, virtual socket layer, zlib, the peer codec (AES block from cryptography, checked by C18). The exact '
+        note='Every client frame of every execution is also judged by the connection-state grammar Trace_Session.tla. Trusted: TLC, virtual socket layer, zlib, the peer codec (AES block from cryptography, checked by C18). The exact '
              'compress-iff-larger-than-threshold rule is model-level (drift), the contract requires recoverability and no compressed '
              'frame below the threshold.',
         design='5/C01'),
@@ -203,6 +210,8 @@ CHECKS = {
              'write_packet, compression switched on, reactor switched, socket closed - was visible to the listener: never to an early '
              'one, always to an ordinary one) and IgnoredNeverReacts on all configurations with <= 1 listener per list, incl. a '
              'set-compression packet kind and a final forced user write; thousands of behaviours are replayed against the real '
+             'code (registrations through register_packet_listener and the listener decorator alternately; in a third of the large '
+             'configurations one and the same callable is registered for several listeners of a list) '
              'code with the registration order shuffled across lists and the exact call log and the answers the peer saw compared; '
              'random configurations with up to 3 listeners per list are judged by TLC running the model from the recorded configuration.',
         note='Trusted: TLC, virtual socket layer, peer codec. Listeners are registered while the networking thread is idle.',
@@ -219,7 +228,7 @@ CHECKS = {
              'versions given as names or numbers over four protocol maps (incl. 2^30-flagged numbers, first and last supported); the '
              'frames the peer decoded on each TCP connection, the connection count, the surfaced exception (class, server_protocol, '
              'wording supported/allowed), handler calls, latency sign, close and exit callback are compared with the model.',
-        note='Trusted: TLC, virtual socket layer, peer codec. The status-phase handshake may carry any allowed version (contract); the '
+        note='Every client frame of every execution is also judged by the connection-state grammar Trace_Session.tla. Trusted: TLC, virtual socket layer, peer codec. The status-phase handshake may carry any allowed version (contract); the '
              'model says the latest. Default handlers are observed through captured stdout.',
         design='5/C09'),
     'C10': dict(
@@ -234,9 +243,10 @@ CHECKS = {
              '385/391/707: the peer recovers secret and token with the private key, switches its own cipher and envelope at the '
              'byte where the protocol says so (any deviation garbles the stream), checks the join hash, and the frames, modes, '
              'join calls and surfaced exception are compared with the model and validated event by event by the contract in TLC. '
-             'Runs of plugin requests are sent one at a time and back to back; disconnect reasons cover JSON objects, bare JSON '
+             'Runs of plugin requests are sent one at a time and back to back (also back to back with the encryption request that '
+             'follows them); the server key comes in three encodings; disconnect reasons cover JSON objects, bare JSON '
              'strings / arrays / null / numbers and non-JSON text.',
-        note='Trusted: TLC, virtual socket layer, peer codec, cryptography package for RSA and the AES block, hashlib for the join '
+        note='Every client frame of every execution is also judged by the connection-state grammar Trace_Session.tla. Trusted: TLC, virtual socket layer, peer codec, cryptography package for RSA and the AES block, hashlib for the join '
              'hash oracle (C17 checks that against TLA+). Thresholds 0,1,64,256,2^31-1 with user-handler payloads sized '
              'thr-1/thr/thr+1.',
         design='5/C10'),
@@ -252,8 +262,9 @@ CHECKS = {
              'random histories of 60-420 packets (keep-alive ids at all VarInt/Long boundaries, unknown-id frames of random '
              'content, known-unhandled packets) under every supported version are judged event by event by the contract in TLC. '
              'Also: two sessions in a row on one Connection object with different compression settings (each judged as a session '
-             'of its own), and the play disconnect packet arriving while queued writes are pending under random schedules.',
-        note='Trusted: TLC, the virtual socket/select/lock layer (semantics taken from real sockets), the peer codec, zlib. Packet '
+             'of its own; also with the first session dropped behind unanswered keep-alives), two Connection objects alive at once '
+             'on different versions, and the play disconnect packet arriving while queued writes are pending under random schedules.',
+        note='Every client frame of every execution is also judged by the connection-state grammar Trace_Session.tla. Trusted: TLC, the virtual socket/select/lock layer (semantics taken from real sockets), the peer codec, zlib. Packet '
              'ids per version come from the code\'s tables (C07 pins them at releases). Single networking thread: schedules are '
              'not the quantifier here (C12/C16).',
         design='5/C11'),
@@ -295,7 +306,8 @@ CHECKS = {
              'order dispatches every class by its own id; the real PacketReactor subclasses are then constructed at '
              'every supported version under shuffled class orders and their dict must equal the table; the tables are rebuilt in '
              'descending, zig-zag and shuffled version orders (must stay total and injective whatever was built before) and the '
-             'reactors are rebuilt on one context walked across all versions. Exhaustive over the quantifier of the property.',
+             'reactors are rebuilt on one context walked across all versions; reactors of all versions are kept alive and re-checked '
+             'after the others have been built. Exhaustive over the quantifier of the property.',
         note='Trusted: TLC, JSON hand-over. Nine collisions inside snapshot windows are recorded as known findings '
              '(known_findings.json); entries so excused are excluded from the TLC walk, every other collision alarms.',
         design='5/C06'),
@@ -307,7 +319,8 @@ CHECKS = {
              'angle and fixed-point relations) exhaustively for 8/16-bit types, booleans and angle steps and on '
              'boundary sets for wide types, strings at the 127/128 and 16383/16384 byte boundaries, arrays nested '
              'to depth 3; every row is replayed into send/read of the real types (bytes equal, value back, exact '
-             'consumption, every strict prefix raises) and seeded random wide values are validated by TLC.',
+             'consumption, every strict prefix raises) and seeded random wide values are validated by TLC. Reads rotate over the '
+             'stream kinds the decoders meet in the library (socket-file stand-in, PacketBuffer, BytesIO).',
         note='Trusted: TLC, JSON hand-over, ldexp/frexp for carrying floats, zlib/NBT out of scope. Long '
              'encodings have their strict prefixes sampled.',
         design='5/C02'),
@@ -319,7 +332,9 @@ CHECKS = {
              'every byte string of <= 2 bytes, all continuation shapes with boundary payloads, every '
              'n < 2^14 (2^21 thorough), powers of two up to 2^77 and negatives; every terminal state is '
              'replayed into VarInt/VarLong.read/send/size under a step budget, and seeded random long '
-             'inputs run through the code are validated against the contract by TLC.',
+             'inputs run through the code are validated against the contract by TLC. The reader is driven through the '
+             'socket-file stand-in, the library\'s PacketBuffer and a bare BytesIO (all three for short inputs, rotating '
+             'otherwise); the kinds must agree.',
         note='Trusted: TLC, the JSON hand-over, the counting stream/sink stand-ins, a 20000-line step '
              'budget as the observable for non-termination. 3-byte inputs by shape x boundary payloads, '
              'not all 2^24.',
